@@ -24,14 +24,34 @@ _CMP = {ast.Lt: operator.lt, ast.LtE: operator.le, ast.Gt: operator.gt, ast.GtE:
         ast.In: lambda a, b: a in b, ast.NotIn: lambda a, b: a not in b, ast.Is: operator.is_, ast.IsNot: operator.is_not}
 _FUNCS = {'len': len, 'ord': ord, 'chr': chr, 'int': int, 'str': str, 'bool': bool, 'abs': abs, 'min': min, 'max': max, 'tuple': tuple,
           'list': list, 'reversed': lambda x: list(reversed(x)), 'sorted': sorted, 'divmod': divmod, 'sum': sum, 'repr': repr}
-_OK_TYPES = (str, int, bool, tuple, list, type(None))
+_OK_TYPES = (str, int, bool, tuple, list, dict, type(None))
 
 
-def fold(e, env=None, texts=None):
+def module_resolver(repo, module):
+    """resolver for fold(): module-level names bound once to a literal / display (lookup tables, hoisted constants)"""
+    def res(name):
+        r = repo.lookup(module, name)
+        if r and r[0] == 'var' and r[1] is not None:
+            return r[1]
+        return None
+    return res
+
+
+def fold(e, env=None, texts=None, resolver=None):
     """Value of the pure term e.  env: {name: constant}; texts: {normalised sub-term text: constant} (for opaque sub-terms the rule
-    wants to treat as inputs)."""
+    wants to treat as inputs); resolver(name) -> AST of a module-level constant, or None.  Dotted names that are not inputs
+    (Mode.RUN, wl.Arg.Int) fold to the opaque symbol ('sym', text)."""
     env = env or {}
     texts = texts or {}
+    resolving = set()
+
+    def is_sym(v):
+        return isinstance(v, tuple) and len(v) == 2 and v[0] == 'sym'
+
+    def truth(v, x):
+        if is_sym(v):
+            raise Unfoldable('truth of ' + norm(x))
+        return bool(v)
 
     def ev(x):
         t = norm(x) if texts else None
@@ -44,7 +64,29 @@ def fold(e, env=None, texts=None):
         if isinstance(x, ast.Name):
             if x.id in env:
                 return env[x.id]
+            if resolver is not None and x.id not in resolving:
+                node = resolver(x.id)
+                if node is not None:
+                    resolving.add(x.id)
+                    try:
+                        return ev(node)
+                    finally:
+                        resolving.discard(x.id)
             raise Unfoldable(x.id)
+        if isinstance(x, ast.Attribute):
+            b = x
+            while isinstance(b, ast.Attribute):
+                b = b.value
+            if isinstance(b, ast.Name) and b.id not in env:
+                return ('sym', norm(x))
+            raise Unfoldable(norm(x))
+        if isinstance(x, ast.Dict):
+            if any(k is None for k in x.keys):
+                raise Unfoldable(norm(x))
+            try:
+                return {ev(k): ev(v) for k, v in zip(x.keys, x.values)}
+            except TypeError as ex:
+                raise Unfoldable('%s: %s' % (norm(x), ex))
         if isinstance(x, (ast.Tuple, ast.List)):
             vals = [ev(v) for v in x.elts]
             return tuple(vals) if isinstance(x, ast.Tuple) else vals
@@ -57,7 +99,7 @@ def fold(e, env=None, texts=None):
         if isinstance(x, ast.UnaryOp):
             v = ev(x.operand)
             if isinstance(x.op, ast.Not):
-                return not v
+                return not truth(v, x.operand)
             if isinstance(x.op, ast.USub):
                 return -v
             raise Unfoldable(norm(x))
@@ -65,15 +107,18 @@ def fold(e, env=None, texts=None):
             last = None
             for v in x.values:
                 last = ev(v)
-                if isinstance(x.op, ast.And) and not last:
+                if isinstance(x.op, ast.And) and not truth(last, v):
                     return last
-                if isinstance(x.op, ast.Or) and last:
+                if isinstance(x.op, ast.Or) and truth(last, v):
                     return last
             return last
         if isinstance(x, ast.Compare):
             left = ev(x.left)
             for op, r in zip(x.ops, x.comparators):
                 right = ev(r)
+                if (is_sym(left) or is_sym(right)) and not (isinstance(op, (ast.Eq, ast.NotEq)) and is_sym(left) and is_sym(right)) \
+                        and not (isinstance(op, (ast.In, ast.NotIn)) and isinstance(right, (list, tuple, dict)) and not is_sym(right)):
+                    raise Unfoldable('comparison with an opaque value: ' + norm(x))
                 try:
                     if not _CMP[type(op)](left, right):
                         return False
@@ -82,7 +127,7 @@ def fold(e, env=None, texts=None):
                 left = right
             return True
         if isinstance(x, ast.IfExp):
-            return ev(x.body) if ev(x.test) else ev(x.orelse)
+            return ev(x.body) if truth(ev(x.test), x.test) else ev(x.orelse)
         if isinstance(x, ast.Subscript):
             base = ev(x.value)
             try:
@@ -110,6 +155,9 @@ def fold(e, env=None, texts=None):
                         return getattr(recv, x.func.attr)(*args, **kw)
                     if isinstance(recv, (list, tuple)) and x.func.attr in ('index', 'count'):
                         return getattr(recv, x.func.attr)(*args)
+                    if isinstance(recv, dict) and x.func.attr in ('get', 'keys', 'values', 'items'):
+                        r_ = getattr(recv, x.func.attr)(*args)
+                        return r_ if x.func.attr == 'get' else list(r_)
             except Unfoldable:
                 raise
             except Exception as ex:
@@ -129,9 +177,9 @@ def fold(e, env=None, texts=None):
     return ev(e)
 
 
-def fold_text(text, env=None, texts=None):
+def fold_text(text, env=None, texts=None, resolver=None):
     try:
         e = ast.parse(text, mode='eval').body
     except SyntaxError:
         raise Unfoldable(text)
-    return fold(e, env, texts)
+    return fold(e, env, texts, resolver)
